@@ -6029,13 +6029,14 @@ let uri_adjust u np =
                       (N.add f.po (Npos (XO (XO (XO (XO (XO (XO (XO (XO (XO
                         (XO (XO (XO (XO (XO (XO (XO XH))))))))))))))))))
                       start) offs)); pl = f.pl },
-                (N.add
-                  (N.add offs
-                    (to16
-                      (N.sub
-                        (N.add f.po (Npos (XO (XO (XO (XO (XO (XO (XO (XO (XO
-                          (XO (XO (XO (XO (XO (XO (XO XH))))))))))))))))))
-                        start))) f.pl))
+                (N.max last
+                  (N.add
+                    (N.add offs
+                      (to16
+                        (N.sub
+                          (N.add f.po (Npos (XO (XO (XO (XO (XO (XO (XO (XO
+                            (XO (XO (XO (XO (XO (XO (XO (XO
+                            XH)))))))))))))))))) start))) f.pl)))
        in
        let (us, l1) = mv u.u_user offs in
        let (pw, l2) = mv u.u_pass l1 in
